@@ -161,7 +161,8 @@ Theorem C05_source_facts :
   (gen_sleep_skip_const = cmd_min /\ forall n, sleep_skip n = gen_sleep_skip_const + gen_sleep_skip_per_seenby * n) /\
   (gen_capfor_min_sizes = [28; 26; 28] /\ forall c m r, cap_for c m r = N.min c (lenN r / (gen_capfor_overhead + m))) /\
   gen_cuts = model_cuts /\
-  gen_shapes = model_shapes.
+  gen_shapes = model_shapes /\
+  gen_bounds = model_bounds.
 Proof.
   repeat split; try reflexivity.
 Qed.
